@@ -13,7 +13,8 @@
 
    check_case codes: 0 ok; 1 model <> implementation; 2 a LoadRaw returned Ok with bytes that are
    not the repository's bytes; 3 a clean-cache ranged Load returned bytes different from the
-   backend's range. *)
+   backend's range; 4 a LoadRaw with an intact backend and an unspent breaker did not answer the
+   repository's bytes (corrupted cached copy not detected / not replaced). *)
 From Restic Require Import Base.Prelude.
 
 Module C38m.
@@ -32,7 +33,10 @@ Definition env_apply (e : env) (c : option bytes) : option bytes :=
   match e with ENone => c | EDel => None | EPut b => Some b end.
 
 (* one Backend.Load: what the wrapped backend serves as the whole file this time (None = error) *)
-Record bcall := mkCall { b_pre : env; b_ans : option bytes; b_post : env }.
+(* b_late: the stream ends with an error that surfaces only after the consumer has returned nil
+   (short read detected by the backend afterwards): Backend.Load returns an error although the
+   consumer saw b_ans *)
+Record bcall := mkCall { b_pre : env; b_ans : option bytes; b_post : env; b_late : bool }.
 
 Inductive lres := LOk (d : bytes) | LErr.
 
@@ -61,7 +65,8 @@ Definition be_plain (script : list bcall) (len off : nat) (c : option bytes) : l
       match b_ans k with
       | None => (LErr, c', rest)
       | Some x =>
-          (match slice x len off with Some d => LOk d | None => LErr end, env_apply (b_post k) c', rest)
+          (if b_late k then LErr else match slice x len off with Some d => LOk d | None => LErr end,
+           env_apply (b_post k) c', rest)
       end
   end.
 
@@ -75,7 +80,9 @@ Definition cache_file (c : option bytes) (script : list bcall) : bool * option b
       | k :: rest =>
           match b_ans k with
           | None => (false, None, rest)               (* error: Cache.remove(h) *)
-          | Some x => (true, env_apply (b_post k) (Some x), rest)   (* Cache.save: atomic replace *)
+          | Some x =>
+              if b_late k then (false, None, rest)    (* saved, then the download fails: Cache.remove(h) *)
+              else (true, env_apply (b_post k) (Some x), rest)   (* Cache.save: atomic replace *)
           end
       end
   end.
@@ -192,16 +199,33 @@ Record case := mk {
   c_obs : list oobs
 }.
 
-(* an environment/script that only ever shows the true bytes (clean cache, intact backend) *)
+(* environments and backend calls that only ever show the true bytes.  good: the call serves the
+   whole true content; honest: it may also fail, or fail late after streaming a prefix of it *)
 Definition env_clean (truth : bytes) (e : env) : bool :=
   match e with EPut b => bytes_eqb b truth | _ => true end.
+Fixpoint is_prefix (p s : bytes) : bool :=
+  match p, s with
+  | [], _ => true
+  | x :: p', y :: s' => andb (N.eqb x y) (is_prefix p' s')
+  | _ :: _, [] => false
+  end.
 Definition call_clean (truth : bytes) (k : bcall) : bool :=
   andb (env_clean truth (b_pre k))
-       (andb (env_clean truth (b_post k)) (match b_ans k with Some x => bytes_eqb x truth | None => false end)).
+       (andb (env_clean truth (b_post k))
+             (andb (negb (b_late k)) (match b_ans k with Some x => bytes_eqb x truth | None => false end))).
+Definition call_honest (truth : bytes) (k : bcall) : bool :=
+  andb (env_clean truth (b_pre k))
+       (andb (env_clean truth (b_post k))
+             (match b_ans k with
+              | None => true
+              | Some x => if b_late k then is_prefix x truth else bytes_eqb x truth
+              end)).
 Definition cache_clean (truth : bytes) (c : option bytes) : bool :=
   match c with Some x => bytes_eqb x truth | None => true end.
 Definition op_clean (truth : bytes) (o : op) : bool :=
   andb (env_clean truth (o_before o)) (forallb (call_clean truth) (o_script o)).
+Definition op_honest (truth : bytes) (o : op) : bool :=
+  andb (env_clean truth (o_before o)) (forallb (call_honest truth) (o_script o)).
 
 (* oracle, clause A (code 2): a LoadRaw never returns Ok with other bytes than the repository's *)
 Fixpoint raw_ok (truth : bytes) (ops : list op) (obs : list oobs) : bool :=
@@ -215,25 +239,49 @@ Fixpoint raw_ok (truth : bytes) (ops : list op) (obs : list oobs) : bool :=
   end.
 
 (* oracle, clause B (code 3): while everything the cache and the backend ever show is the true
-   content (arbitrary deletions allowed) and the script is long enough, a ranged Load returns
-   exactly what the backend alone would return *)
+   content (deletions, failing and late-failing downloads allowed), a ranged Load returns what the
+   backend alone would return or an error -- never other bytes; and exactly the backend's answer
+   when the op's own script has at least two calls that all serve the whole content *)
 Fixpoint clean_prefix_ok (truth : bytes) (clean : bool) (ops : list op) (obs : list oobs) : bool :=
   match ops, obs with
   | o :: r, ob :: r' =>
-      let clean' := andb clean (op_clean truth o) in
+      let clean' := andb clean (op_honest truth o) in
       andb (match o_kind o with
             | OpLoad len off =>
-                if andb clean' (Nat.leb 2 (length (o_script o))) then
-                  ores_eqb (ob_res ob) (match slice truth len off with Some d => OOk d | None => OErr end)
+                let want := match slice truth len off with Some d => OOk d | None => OErr end in
+                if clean' then
+                  if andb (op_clean truth o) (Nat.leb 2 (length (o_script o)))
+                  then ores_eqb (ob_res ob) want
+                  else orb (ores_eqb (ob_res ob) want) (ores_eqb (ob_res ob) OErr)
                 else true
             | OpRaw => true
             end) (clean_prefix_ok truth clean' r r')
   | _, _ => true
   end.
 
+(* oracle, clause C (code 4): corrupted cached files are detected and replaced.  The model's view of
+   the once-only breaker is threaded along: while it is unspent, a LoadRaw whose own script has at
+   least two calls that all serve the whole true content answers Ok with the true bytes, whatever
+   the cache held before (stale, truncated, foreign, deleted) *)
+Definition is_config (t : ftype) : bool := match t with TConfig => true | _ => false end.
+Fixpoint heal_ok (truth : bytes) (t : ftype) (st : rstate) (ops : list op) (obs : list oobs) : bool :=
+  match ops, obs with
+  | o :: r, ob :: r' =>
+      let (_, st') := run_op truth t st o in
+      andb (match o_kind o with
+            | OpRaw =>
+                if andb (negb (is_config t)) (andb (negb (s_forgotten st))
+                        (andb (forallb (call_clean truth) (o_script o)) (Nat.leb 2 (length (o_script o)))))
+                then ores_eqb (ob_res ob) (OOk truth) else true
+            | OpLoad _ _ => true
+            end) (heal_ok truth t st' r r')
+  | _, _ => true
+  end.
+
 Definition oracle_code (c : case) : nat :=
   if negb (raw_ok (c_truth c) (c_ops c) (c_obs c)) then 2
   else if negb (clean_prefix_ok (c_truth c) (cache_clean (c_truth c) (c_cache0 c)) (c_ops c) (c_obs c)) then 3
+  else if negb (heal_ok (c_truth c) (c_type c) (mkSt (c_cache0 c) false) (c_ops c) (c_obs c)) then 4
   else 0.
 
 Definition check_C38 (c : case) : bool := Nat.eqb (oracle_code c) 0.
